@@ -72,6 +72,12 @@ type Frame struct {
 	depth     int
 	kind      int // 0 = ordinary call, 1 = deferred call run by rundefers, 2 = deferred call run by unwinding
 	loopSeen  map[*ssa.BasicBlock]bool
+	locals    map[string]localRef // source-level names (from DebugRef)
+}
+
+type localRef struct {
+	v      ssa.Value
+	isAddr bool
 }
 
 const (
@@ -93,6 +99,10 @@ func (f *Frame) clone() *Frame {
 	nf.loopSeen = make(map[*ssa.BasicBlock]bool, len(f.loopSeen))
 	for k, v := range f.loopSeen {
 		nf.loopSeen[k] = v
+	}
+	nf.locals = make(map[string]localRef, len(f.locals))
+	for k, v := range f.locals {
+		nf.locals[k] = v
 	}
 	nf.parent = f.parent.clone()
 	return &nf
@@ -144,7 +154,9 @@ type State struct {
 	labels    map[string]*snapshot // named snapshots (after contract calls)
 	tiAllocs  []tiAlloc
 	noTypeInv bool
-	recovered *Term // value returned by the last successful recover()
+	recovered *Term           // value returned by the last successful recover()
+	freshRefs map[string]bool // references allocated on this path
+	dirty     map[string]bool // heap arrays written at a reference that is not fresh (or havocked)
 }
 
 type tiAlloc struct {
@@ -157,10 +169,11 @@ type snapshot struct {
 	ghost   map[string]Term
 	alloc   Term
 	results []SVal
+	args    map[string]SVal
 }
 
-func (s *State) setLabel(name string, results []SVal) {
-	sn := &snapshot{heap: map[string]Term{}, ghost: map[string]Term{}, alloc: s.alloc, results: results}
+func (s *State) setLabel(name string, results []SVal, args map[string]SVal) {
+	sn := &snapshot{heap: map[string]Term{}, ghost: map[string]Term{}, alloc: s.alloc, results: results, args: args}
 	for k, v := range s.heap {
 		sn.heap[k] = v
 	}
@@ -189,6 +202,14 @@ func (s *State) fork() *State {
 	ns.ghost = make(map[string]Term, len(s.ghost))
 	for k, v := range s.ghost {
 		ns.ghost[k] = v
+	}
+	ns.freshRefs = make(map[string]bool, len(s.freshRefs))
+	for k, v := range s.freshRefs {
+		ns.freshRefs[k] = v
+	}
+	ns.dirty = make(map[string]bool, len(s.dirty))
+	for k, v := range s.dirty {
+		ns.dirty[k] = v
 	}
 	ns.closures = make(map[string]*ClosureVal, len(s.closures))
 	for k, v := range s.closures {
@@ -280,6 +301,7 @@ func (s *State) setH(name string, t Term) {
 }
 
 func (s *State) havocH(name string) {
+	s.dirty[name] = true
 	s.H(name)
 	s.heap[name] = s.fresh(name, s.w.heapSorts[name])
 }
